@@ -1,5 +1,6 @@
 (* C05: correspondence (check_case, shared with C04) + executable property oracle: every
-   successful access was declared with the needed permission bits, every undeclared access fails
+   successful access was declared with the needed permission bits (union of all declarations of
+   the key), a declared access is not refused for lack of permission, every undeclared access fails
    with the permission error and changes nothing, and keys without write permission keep their
    visible value and their published entry.  Written over the declaration list directly. *)
 From stdpp Require Import gmap.
@@ -27,16 +28,19 @@ Fixpoint steps_ok (sp : scope_spec) (univ : list key) (vis0 : list (option val))
         match x with
         | HGet k =>
             let p := declared sp k in
-            implb (is_read r) (has_bits p 1) && implb (negb (has_bits p 1)) (is_perm_err r) && unchanged
+            implb (is_read r) (has_bits p 1) && implb (negb (has_bits p 1)) (is_perm_err r)
+            && implb (has_bits p 1) (negb (is_perm_err r)) && unchanged
         | HIns k v =>
             let p := declared sp k in
             let absent := match vis_at univ pvis k with Some None => true | _ => false end in
             implb (is_ok r) (has_bits p 5 && implb absent (has_bits p 3))
             && implb (negb (has_bits p 5)) (is_perm_err r)
+            && implb (has_bits p 7) (negb (is_perm_err r))
             && implb (is_err r) unchanged
         | HRem k =>
             let p := declared sp k in
             implb (is_ok r) (has_bits p 5) && implb (negb (has_bits p 5)) (is_perm_err r)
+            && implb (has_bits p 5) (is_ok r)
             && implb (is_err r) unchanged
         | HRb _ => true
         end in
